@@ -22,7 +22,7 @@ MAX_REQUEST = 4000
 
 def oracle_all(ds):
     line = "(allvalid %s)" % docsem.to_wire(ds.sem)
-    out = common.run_model([line])[0]
+    out = common.run_model([line], domain="Design")[0]
     if out.startswith("!"):
         raise RuntimeError("oracle failed: " + out)
     r = common.parse_sexp(out)
@@ -33,7 +33,7 @@ def oracle_valid(ds, seqs):
     if not seqs:
         return []
     line = "(valid %s %s)" % (docsem.to_wire(ds.sem), docsem.to_wire(seqs))
-    out = common.run_model([line])[0]
+    out = common.run_model([line], domain="Design")[0]
     if out.startswith("!"):
         raise RuntimeError("oracle failed: " + out)
     return [x == "true" for x in common.parse_sexp(out)[0]]
@@ -41,7 +41,7 @@ def oracle_valid(ds, seqs):
 
 def oracle_why(ds, seq):
     line = "(why %s %s)" % (docsem.to_wire(ds.sem), docsem.to_wire(seq))
-    return common.run_model([line])[0]
+    return common.run_model([line], domain="Design")[0]
 
 
 def analyse(program, strategies=("IterateSATGen", "RandomGen"), want_oracle=True, request=None):
